@@ -212,8 +212,7 @@ def vmdk_descriptor(p):
     lines.append('')
     extents = p.get('extents', ['RW 2048 SPARSE "disk.vmdk"'])
     lines += extents
-    if not extents:
-        ok = False
+    has_extent = bool(extents)
     for e in extents:
         if '/' in e:
             ok = False
@@ -221,8 +220,12 @@ def vmdk_descriptor(p):
         lines.append(line)
         if not line_ok:
             ok = False
-        if line.split(' ')[0].lower() in ('rw', 'rdonly', 'noaccess') and '/' in line:
-            ok = False
+        if line.strip().split(' ')[0].lower() in ('rw', 'rdonly', 'noaccess'):
+            has_extent = True
+            if '/' in line:
+                ok = False
+    if not has_extent:
+        ok = False
     lines += ['', '# The Disk Data Base', '#DDB', '', 'ddb.virtualHWVersion = "4"']
     if p.get('shuffle_seed') is not None:
         random.Random('vmdkshuffle-%s' % p['shuffle_seed']).shuffle(lines)
@@ -273,15 +276,16 @@ def vmdk(p):
         img += bytes(marker) + bytes(fhdr) + bytes(eos)
     if p.get('total') is not None:
         img = img[:p['total']] if p['total'] <= len(img) else img.ljust(p['total'], b'\0')
-    desc_fits = len(desc) <= region_len and len(desc) < desc_num * 512 or (len(desc) <= region_len and desc_num * 512 > region_len)
+    desc_fits = len(desc) <= region_len
     hdr_ok = magic == b'KDMV' and ver in (1, 2, 3) and desc_sec == 1
     desc_end = 512 + region_len
-    complete = len(img) >= desc_end and (not footer or len(img) >= 1536)
-    truncated = p.get('total') is not None and p['total'] < max(desc_end, 0)
+    complete = len(img) >= desc_end and (not footer or len(img) >= desc_end + 1536)
     if not hdr_ok or desc_num == 0 or not desc_ok or footer_pert:
         safety = 'reject'
-    elif not desc_fits or truncated or not complete:
-        safety = 'dontcare' if desc_fits and not truncated else ('reject' if truncated else 'dontcare')
+    elif not desc_fits:
+        safety = 'dontcare'
+    elif not complete:
+        safety = 'reject'
     else:
         safety = 'accept'
     wellformed = hdr_ok and desc_ok and desc_num >= 1 and desc_fits and complete and not footer_pert
@@ -289,7 +293,7 @@ def vmdk(p):
                  lo=20, hi=desc_end, wellformed=wellformed,
                  bounds=[4, 8, 12, 20, 28, 36, 44, 56, 64, 512, 512 + len(desc), desc_end] +
                         ([len(img) - 1536, len(img) - 1024, len(img) - 512] if footer else []),
-                 safety=safety, responsible=['descriptor'] if not desc_ok else (['footer'] if footer_pert else []),
+                 safety=safety, responsible=[] if not hdr_ok else (['descriptor'] if not desc_ok else (['footer'] if footer_pert else [])),
                  complete_at=desc_end, hdr_ok=hdr_ok, footer=footer)
     return img, truth
 
@@ -301,7 +305,7 @@ def vmdk_text(p):
     if total is not None:
         desc = desc.ljust(total, b'\n')[:total]
     truth = dict(fmt='vmdk', sig=False, size=0, lo=1 << 62, hi=1 << 62, wellformed=False, text=True,
-                 bounds=[4, 64, 512, len(desc)], safety='dontcare', responsible=[], complete_at=4)
+                 bounds=[4, 64, 512, len(desc)], safety='dontcare' if ok else 'reject', responsible=[], complete_at=4)
     return desc, truth
 
 
